@@ -79,6 +79,29 @@ CHECKS = {
              "differentially.",
         technique="Coq proof (computation lemmas over the shape dispatch) + "
                   "vm_compute correspondence"),
+    "C17": dict(
+        text="Theorems about the modelled footprint: the status-table merge "
+             "of the diagnostic page writes no pre-existing dictionary object "
+             "(heap model with aliasing; the pre-fix aliasing variant is "
+             "refuted by a witness); every request history over one or "
+             "several applications yields the answers each request gets "
+             "alone; under any interleaving of atomic steps that read shared "
+             "state and write only their request's own state the shared "
+             "state is unchanged and each request ends where it ends alone. "
+             "Tie: correspondence of the merge with the real debug_info; a "
+             "state census (all module globals of poorwsgi.*, "
+             "http.client.responses, every Application attribute) around "
+             "every request; each answer compared with the answer of the "
+             "same request alone in a forked pristine process; all "
+             "interleavings of two in-flight requests at 4 switch points "
+             "under a deterministic baton scheduler.",
+        design="7/C17",
+        note="partial: the theorem covers the modelled footprint, the "
+             "census covers executed paths only; preemption between switch "
+             "points inside CPython/C code is not explored; user handler "
+             "state is the user's.",
+        technique="Coq proof (heap frame lemma, induction over schedules "
+                  "and histories) + state census + differential runs"),
     "C19": dict(
         text="Theorems: for EVERY sequence of registration/removal calls the "
              "model's views equal those of a declarative registry (map (kind, "
@@ -126,6 +149,28 @@ CHECKS = {
              "parse_range is covered by C18 and the end-to-end monitor.",
         technique="Coq proof (lia + list induction) + vm_compute "
                   "correspondence"),
+    "C09": dict(
+        text="Theorems over the model of CachedInput.read/readline (loop "
+             "with explicit fuel), for all bodies, declared lengths, block "
+             "sizes, size arguments, call histories (induction) and short-"
+             "read patterns: returned chunks ++ pending = first n bytes "
+             "(nothing lost, duplicated or reordered); budget bookkeeping "
+             "(todo = n - received, every request within the remaining "
+             "budget); readline results contain CRLF only at their end and "
+             "are cut only by the size limit, exhaustion or an empty read; "
+             "every call returns within fuel > max(n, size) (no spinning); "
+             "completeness when a blocking stream reports end of input. "
+             "Correspondence on the exhaustive small-alphabet grid and long "
+             "bodies with CRLFs on block edges; monitor from the property "
+             "text with an instrumented stream.",
+        design="7/C09",
+        note="timeout=None path (the clock-based TimeoutError loop is "
+             "outside the model; known finding timeout-busy-wait-on-early-"
+             "eof); n >= 0, block >= 1, the stream never raises; 'total "
+             "requested <= n' is proved per request against the remaining "
+             "budget (the literal sum is false under short reads).",
+        technique="Coq proof (invariant by induction over call histories, "
+                  "fuel-bounded loop) + vm_compute correspondence"),
     "C10": dict(
         text="Theorems (all pair lists, all strings): parse_qsl(urlencode "
              "pairs) = pairs (blank values kept or dropped per setting) for "
